@@ -547,7 +547,8 @@ Definition prog_tags (ops : list (list mstep)) : list N := flat_map (flat_map st
 
 Inductive crash_case :=
 | CCase (sc : scenario) (cp : crashpoint) (acked : bool) (restart final again : obs_view)
-| OCase (sc : scenario) (n : nat) (tags : list N).
+| OCase (sc : scenario) (n : nat) (tags : list N)
+| VCase (types : list bytes) (s : status) (out_len : N) (answers : list obs_view).
 
 Definition view_node (v : view) : bytes :=
   match s_extra (v_status v) with XRemote n _ _ _ => n | _ => [] end.
@@ -570,6 +571,25 @@ Definition agree_view (v : view) (o : obs_view) : bool :=
      && Bool.eqb (started (v_status v)) (ov_started o)
    else true).
 
+(* A third kind of case ties [recover] itself to scanForUnit + Restart on a unit at rest: a unit
+   directory holding the intact record [s] (in particular every final state: Succeeded, Failed,
+   Canceled, local and remote) and [out_len] bytes of output is started on several times in a
+   row; each start must answer what the real daemon answered — exactly, sizes included. *)
+Definition agree_exact (v : view) (o : obs_view) : bool :=
+  Bool.eqb (v_listed v) (ov_listed o) &&
+  (if v_listed v then
+     Bool.eqb (v_known v) (ov_known o) && beq_bytes (s_wtype (v_status v)) (ov_wtype o)
+     && (s_state (v_status v) =? ov_state o) && (s_size (v_status v) =? ov_size o)
+     && beq_bytes (view_node v) (ov_node o) && Bool.eqb (view_runit_set v) (ov_runit_set o)
+     && Bool.eqb (started (v_status v)) (ov_started o)
+   else true).
+
+Fixpoint recover_answers (types : list bytes) (x : ufiles) (answers : list obs_view) : bool :=
+  match answers with
+  | [] => true
+  | o :: r => let '(x', v) := recover types x in agree_exact v o && recover_answers types x' r
+  end.
+
 Definition crash_check (c : crash_case) : bool :=
   match c with
   | CCase sc cp acked restart final again =>
@@ -579,4 +599,6 @@ Definition crash_check (c : crash_case) : bool :=
     && agree_view (o_final o) final
     && agree_view (o_again o) again
   | OCase sc n tags => beq_bytes (prog_tags (firstn n (d_prog sc))) tags
+  | VCase types s n answers =>
+    recover_answers types (mkU true (Some (encode s)) (Some []) (Some []) (Some (repeat 0 (N.to_nat n)))) answers
   end.
